@@ -239,6 +239,9 @@ def pow2(E, st, n):
         d = z3.simplify(n - y)
         if z3.is_int_value(d) and 0 <= k + d.as_long() <= 4096:
             return z3.IntVal(2 ** (k + d.as_long()))
+        d = z3.simplify(n + y)              # exponent == constant - (that shift count)
+        if z3.is_int_value(d) and 0 <= d.as_long() - k <= 4096:
+            return z3.IntVal(2 ** (d.as_long() - k))
     if E.options.get('pow2_consts') and not z3.is_int_value(z3.simplify(n)):
         # opt-in: when the path condition fixes the exponent to one small constant, 2**n is that constant power
         s = z3.Solver()
@@ -826,6 +829,19 @@ def store_subscript(E, base, idx, v, st, sink):
                 except IndexError:
                     sink.append(('raise', st, exc(IndexError, 'list assignment index out of range')))
                     return []
+            elif isinstance(idx, (SInt, SBool)) and len(h.items) <= 64 and is_intlike(v) and all(is_intlike(x) for x in h.items):
+                # symbolic index into a list of integers of concrete length: every cell becomes "v if it is the cell else itself"
+                i = zint(idx)
+                n = len(h.items)
+                bad, ok = E.split(st, z3.Or(i >= n, i < -n))
+                if bad is not None:
+                    sink.append(('raise', bad, exc(IndexError, 'list assignment index out of range')))
+                if ok is None:
+                    return []
+                st = ok
+                h = st.heap[base.oid]
+                j = z3.If(i < 0, i + n, i)
+                h.items = [mk_int(z3.If(j == k, zint(v), zint(x))) for k, x in enumerate(h.items)]
             else:
                 raise Unsupported('symbolic list index store')
             st.writes.append((base.oid, '<items>'))
